@@ -27,6 +27,7 @@ const (
 	ptCbEnter  = "chan.closeStateChange.enter"
 	ptCbRead   = "chan.closeStateChange.afterRead"
 	ptCbMin    = "chan.closeStateChange.afterMinState"
+	ptRmLock   = "chan.removeClosedConn.beforeLock" // inside the callback: the connection is Closed, its removal comes next
 )
 
 type c07Event struct {
